@@ -359,21 +359,6 @@ theorem ranges_concat (cfg : StreamCfg) (V : List Ent) (start : Bytes) (ss : Lis
         simpa [klt] using this)]
     exact produceLoop_glue cfg s (hne s (by simp)) _ none (fun p hp => by cases hp)
 
-theorem streamRun_const (merged : List Ent) (cfg : StreamCfg) (now ts : Nat) (ranges : List KeyRange)
-    (rts : List Nat) (hlen : rts.length = ranges.length) (hall : ∀ r ∈ rts, r = ts) :
-    streamRun merged cfg now ranges rts = ranges.map (produceRange merged cfg ts now) := by
-  unfold streamRun
-  induction ranges generalizing rts with
-  | nil => simp
-  | cons r rs ih =>
-    cases rts with
-    | nil => simp at hlen
-    | cons t tl =>
-      have ht : t = ts := hall t (by simp)
-      subst ht
-      simp only [List.zip_cons_cons, List.map_cons]
-      rw [ih tl (by simpa using hlen) (fun x hx => hall x (List.mem_cons_of_mem _ hx))]
-
 /-! ## key-sorted lists -/
 
 /-- keys non-decreasing -/
